@@ -332,6 +332,34 @@ def run(ctx):
         g = TreeGen(rng, misplace=mis, max_depth=rng.choice([2, 3, 4]))
         trees.append(g.document())
         ctx.dist("tree-misplaced" if mis else "tree-well-placed-gen")
+    # trees far deeper than any generated one (widget / layout / widget ... 40, 65, 66, 130 levels; a menu chain): the form nests as deep as the document does
+    def deep(n, menus=False):
+        cnt = [0]
+        def node(kind, cls):
+            cnt[0] += 1
+            return {"kind": kind, "cls": cls, "ix": cnt[0], "id": ("o%d" % cnt[0]) if cnt[0] % 3 == 0 else None, "children": [], "props": [], "acts": None}
+        root = node("widget", "QWidget")
+        root["deep"] = True          # judged by the S oracle only: a Coq term nested this deep is out of reach of coqc's parser
+        cur = root
+        for lvl in range(n):
+            nxt = node("menu", "QMenu") if menus else (node("layout", "QVBoxLayout") if lvl % 2 == 0 else node("widget", "QWidget"))
+            cur["children"].append(nxt)
+            cur = nxt
+        if menus:
+            cur["children"].append(node("action", "QAction"))
+        else:
+            if cur["kind"] == "widget":
+                lay = node("layout", "QHBoxLayout")
+                cur["children"].append(lay)
+                cur = lay
+            cur["children"].append(node("widget", "QLabel"))
+            cur["children"].append(node("widget", "QPushButton"))
+        return root
+    for n in ((40, 65, 66, 130) if ctx.tier == "thorough" else (40, 66, 130)):
+        trees.append(deep(n))
+        ctx.dist("tree-deep")
+    trees.append(deep(70, menus=True))
+    ctx.dist("tree-deep")
     if ctx.replay:
         trees = [ctx.replay["case"]]
     docs = []
@@ -432,6 +460,8 @@ def run(ctx):
             shape = real_shape(root_el, {o["name"]: o["ix"] for o in flat})
         except Shape as e:
             ctx.violation("unexpected element structure: %s" % e, dict(rep, impl_output=r["ui"]))
+            continue
+        if t.get("deep"):
             continue
         terms.append((coq_tree(t), "(%s, %s)" % (shape, C.coq_list(place))))
         idx.append(i)
